@@ -10,7 +10,8 @@
        is a fair coin, the false discovery proportion of the TDC accept set, summed over all 2^m
        labellings, is at most alpha * 2^m — for every arrangement, every m and every alpha >= 0. *)
 From Mokaverif Require Import Model.Base Model.Tdc Model.Brew Model.Confidence Model.Fdr.
-From Mokaverif Require Import Proofs.TdcP Proofs.BrewP Proofs.ConfidenceP Proofs.FdrP.
+From Coq Require Import Permutation.
+From Mokaverif Require Import Proofs.TdcP Proofs.BrewP Proofs.BrewEnsP Proofs.ConfidenceP Proofs.FdrP.
 Open Scope nat_scope.
 
 Theorem C04_noninterference : forall (row : Type) (tbl tbl' : list row) fold,
@@ -71,6 +72,67 @@ Print Assumptions C04_fdr_control_tdc.
 Theorem C04_accept_set_is_tdc_bounded : bridge_sweep 6 = true.
 Proof. exact bridge_bounded. Qed.
 Print Assumptions C04_accept_set_is_tdc_bounded.
+
+(* ---- the known finding brew:ensemble-scores-training-rows, formally (R2.22).  The chain above rests on (1): a PSM is
+   only ever scored by a model that has not seen it.  With ensemble=True that premise is FALSE: for k >= 2 folds every
+   PSM r has a fold g, and each of the k - 1 models f <> g
+   (i) was fitted on r and on every PSM of r's spectrum (no training cap: the training rows of fold f are the whole
+       complement of fold f; with a cap, whenever the sub-sample kept them), and
+   (ii) enters r's final score with weight 1 / k — (value of model f + values of the others) / k — whatever order
+       the fitted models (fold number f + 1, decision values) were delivered in.
+   The statistical consequence (FDP above alpha with a memorising learner) is the known finding of the harness; this
+   is its mechanism. *)
+Theorem C04_ensemble_leak : forall keys k folds r, 2 <= k -> bw_split keys k = Ok folds -> r < length keys ->
+  exists g, g < k /\ fold_index folds r g /\
+    length (filter (fun f => negb (Nat.eqb f g)) (seq 0 k)) = k - 1 /\
+    forall f, f < k -> f <> g ->
+      (forall r', r' < length keys -> nth r' keys 0%Z = nth r keys 0%Z ->
+         In r' (nth f (bw_train_sets folds (length keys)) [])) /\
+      (forall c fitted out raw_f, 1 <= c -> bw_brew_scores_ens c k keys fitted = Ok out ->
+         In (S f, raw_f) fitted ->
+         exists others, Permutation (raw_f :: others) (map snd fitted) /\
+           (nth r out 0 == (inject_Z (nth r raw_f 0%Z) + inject_Z (ens_zsum (map (fun rm => nth r rm 0%Z) others)))
+                           / inject_Z (Z.of_nat (length fitted)))%Q).
+Proof. exact ensemble_leak. Qed.
+Print Assumptions C04_ensemble_leak.
+
+(* dependence, not just occurrence: if one model changes its mind about row r by d, the final score of r moves by
+   d / k; in particular it moves whenever d <> 0 *)
+Theorem C04_ensemble_score_depends : forall c k keys pre post f raw_f raw_f' out out' r,
+  1 <= c -> r < length keys ->
+  bw_brew_scores_ens c k keys (pre ++ (f, raw_f) :: post) = Ok out ->
+  bw_brew_scores_ens c k keys (pre ++ (f, raw_f') :: post) = Ok out' ->
+  (nth r out' 0 - nth r out 0 ==
+   (inject_Z (nth r raw_f' 0%Z) - inject_Z (nth r raw_f 0%Z)) / inject_Z (Z.of_nat (length pre + S (length post))))%Q
+  /\ (nth r raw_f' 0%Z <> nth r raw_f 0%Z -> ~ (nth r out' 0 == nth r out 0)%Q).
+Proof. exact ens_score_depends. Qed.
+Print Assumptions C04_ensemble_score_depends.
+
+(* the negation of the held-out guarantee (C02_heldout_per_fold is the positive statement for the per-fold mode) *)
+Theorem C04_ensemble_heldout_refuted : forall keys k folds, 2 <= k -> 1 <= length keys -> bw_split keys k = Ok folds ->
+  ~ heldout_ok (length keys) k (fun _ _ => true) (bw_train_sets folds (length keys)).
+Proof. exact ens_heldout_refuted. Qed.
+Print Assumptions C04_ensemble_heldout_refuted.
+
+(* the explicit witness: 7 PSMs, 4 spectra, 3 folds; PSM 3 lies in fold 2 (0-based); the models of folds 0 and 1 were
+   fitted on it; when the model of fold 0 changes its value on PSM 3 from 6 to 60 (it has seen the label), the
+   ensemble score of PSM 3 moves from 12/3 to 66/3 — while the per-fold scores (uncalibrated) do not move at all *)
+Example C04_ensemble_leak_refuted :
+  let keys := [5;3;5;9;3;5;1]%Z in
+  let tg := [true;true;false;true;false;true;false] in
+  let A := [9;8;7;6;5;4;3]%Z in let A' := [9;8;7;60;5;4;3]%Z in
+  let B := [1;2;3;4;5;6;7]%Z in let C := [2;2;2;2;9;9;9]%Z in
+  bw_split keys 3 = Ok [[6;1;4]; [0;2;5]; [3]] /\
+  nth 3 (bw_fold_of [[6;1;4]; [0;2;5]; [3]] 7) 0 = 2 /\
+  In 3 (nth 0 (bw_train_sets [[6;1;4]; [0;2;5]; [3]] 7) []) /\ In 3 (nth 1 (bw_train_sets [[6;1;4]; [0;2;5]; [3]] 7) []) /\
+  bw_brew_scores_ens 2 3 keys [(1, A); (2, B); (3, C)] = Ok [12#3; 12#3; 12#3; 12#3; 19#3; 19#3; 19#3]%Q /\
+  bw_brew_scores_ens 2 3 keys [(1, A'); (2, B); (3, C)] = Ok [12#3; 12#3; 12#3; 66#3; 19#3; 19#3; 19#3]%Q /\
+  bw_brew_scores false 2 3 (1#2)%Q keys tg [A; B; C] = bw_brew_scores false 2 3 (1#2)%Q keys tg [A'; B; C] /\
+  ~ (forall r f, r < 7 -> f < 3 -> ~ In r (nth f (bw_train_sets [[6;1;4]; [0;2;5]; [3]] 7) [])).
+Proof.
+  vm_compute. repeat split; try (left; reflexivity); try (right; left; reflexivity); try (right; right; left; reflexivity).
+  intros H. apply (H 3 0); [repeat constructor|repeat constructor|]. right. right. left. reflexivity.
+Qed.
 
 (* non-vacuity: 3 correct targets, 4 nulls; expected FDP over the 16 labellings at alpha = 1/2 *)
 Example C04_example :
